@@ -9,7 +9,8 @@ try-finally, try-except-else-finally, with (plain, suppressing, `as x`), match (
 sequence pattern/wildcard, literal/class pattern).  The body of every try statement and of the suppressing with is
 interleaved with a conditional raise at EVERY position, so every exception edge out of a try body is taken.
 Bound: <= 3 nodes (atoms + compounds), nesting <= 2, sequence length <= 3 (<= 2 inside compounds), plus all 4-node
-single-statement programs loop(try(..)) that contain a break/continue (leaving a try inside a loop); thorough adds
+single-statement programs loop(try(..)) that contain a break/continue (leaving a try inside a loop) and the 5-node shapes
+loop[try[s; break|continue] except/finally: pass; s']; thorough adds
 all 4-node programs over {assign, del, read} x {while, for, try-except, try-finally, try-except-as-x, match}.  Every
 program is generated with and without an `x = 1` prologue and ends with an epilogue that probes the final binding
 state of x (bare `x` statement and a call argument) and of y under try/except.  Every branch, loop count (0/1/2) and conditional raise reads its own digit of
@@ -64,6 +65,18 @@ def _family(tier):
                 and any(k[0] in ('B', 'K') for k in gen._walk(p[1]))):
             seen.add(p)
             progs.append(p)
+    # ... and the state at the break/continue must be able to differ from every state at the loop head, which takes one
+    # more statement after the try: loop[ try[s1; break|continue] except/finally: pass ; s2 ]  (5 nodes, 72 shapes)
+    for loop in ('wh', 'forx'):
+        for tr in ('te', 'tf'):
+            for s1 in 'ADR':
+                for bk in 'BK':
+                    for s2 in 'ADR':
+                        prog = ((loop, ((tr, ((s1,), (bk,)), ()), (s2,))),)
+                        for init in (False, True):
+                            if gen.admissible(prog, init, 6) and (init, prog) not in seen:
+                                seen.add((init, prog))
+                                progs.append((init, prog))
     if tier != 'quick':
         for p in gen.programs(4, top_len=2, inner_len=2, atoms=('A', 'D', 'R'), forms=('wh', 'forx', 'te', 'tf', 'tex', 'ms')):
             if p not in seen:
